@@ -27,6 +27,8 @@ CONSTANTS
   BugBoundKeepsFirst = FALSE
   BugAsyncGenWrapped = FALSE
   FixedDeclaredReturn = FALSE
+  FixedAsyncGenInferred = TRUE
 INVARIANT ShapeViewsAgree
+INVARIANT CallAwaitableAgrees
 INVARIANT EmitShape
 CHECK_DEADLOCK FALSE
